@@ -190,6 +190,14 @@ impl EphStream {
         self.from_tx.is_none()
     }
 
+    /// Hands the subscription to a real executor; the rest keeps the channel open.
+    #[allow(clippy::type_complexity)]
+    pub fn into_parts(
+        self,
+    ) -> (Pin<Box<EphemeralStreamSubscription<String>>>, broadcast::Sender<Vec<u8>>, (Option<Gossip>, Option<EphemeralStreamPublisher<String>>)) {
+        (self.sub, self.from_tx.expect("open"), (self.gossip, self.publisher))
+    }
+
     /// Would an executor poll the task now?
     pub fn runnable(&self) -> bool {
         !self.done && (self.woken_by_env || self.flag.woken.load(Ordering::SeqCst))
@@ -537,6 +545,15 @@ fn authentic_author(cls: &str) -> Option<Author> {
     }
 }
 
+/// Do the delivered bytes decode (as generic CBOR) to a tuple whose first six fields differ from the
+/// original's? (Not decodable, or the same six fields = only the framing was touched.)
+fn semantic_change(bytes: &[u8], orig: &[u8]) -> bool {
+    match ciborium::from_reader::<Cbor, _>(bytes) {
+        Ok(Cbor::Array(f)) if f.len() >= 6 => f[..6] != cbor_fields(orig)[..6],
+        _ => false,
+    }
+}
+
 /// What the harness knows about an item it delivered.
 struct Entry {
     cls: String,
@@ -606,7 +623,10 @@ impl Ledger {
                     ),
                 ),
             ),
-            None if same(&e.orig, Author::A) => (id, Judged::SameFieldsAsSigned),
+            // visible fields are the signed ones; the logical part of the timestamp and the signature are
+            // not visible through the API, so look at the delivered bytes too: if they decode to six
+            // fields of which any differs from what A signed, a forged message was accepted
+            None if same(&e.orig, Author::A) && !semantic_change(&e.bytes, &e.orig) => (id, Judged::SameFieldsAsSigned),
             None => (
                 id,
                 Judged::Forged(
@@ -653,7 +673,10 @@ fn replay(args: &Args) {
                     Err(p) => out.violation("*", "subscription-panics", p, b.clone()),
                 }
             }
-            Some("class") => match catch(|| replay_class(&env, &mut mint, &mut out, b, &mut rng, limit)) {
+            Some("class") => match catch(|| {
+                replay_class(&env, &mut mint, &mut out, b, &mut rng, limit);
+                tokio_pass(&env, &mut mint, &mut out, b["cls"].as_str().unwrap(), b["accept"].as_bool().unwrap(), &mut rng);
+            }) {
                 Ok(()) => {}
                 Err(p) => out.violation("*", "subscription-panics", p, b.clone()),
             },
@@ -730,10 +753,22 @@ fn replay_sub(env: &Env, mint: &mut Mint, out: &mut Outcome, b: &Value, rng: &mu
                 let (orig, item) = mint.one(env, cls, id, rng);
                 ledger.add(id, cls, orig, &item);
                 out.count(&format!("sent:{cls}"));
-                s.send(item.bytes);
+                let woke = s.send(item.bytes);
+                if woke != step["woke"].as_bool().unwrap() && diverged.is_none() {
+                    diverged = Some((
+                        "subscription-differs-from-spec".into(),
+                        format!("step {i}: delivery of item {id} woke the task: {woke}, specification says {}", step["woke"]),
+                    ));
+                }
             }
             "Close" => {
-                s.close();
+                let woke = s.close();
+                if woke != step["woke"].as_bool().unwrap() && diverged.is_none() {
+                    diverged = Some((
+                        "subscription-differs-from-spec".into(),
+                        format!("step {i}: closing the channel woke the task: {woke}, specification says {}", step["woke"]),
+                    ));
+                }
             }
             "Poll" => {
                 match step["res"].as_str().unwrap() {
@@ -894,6 +929,73 @@ fn replay_class(env: &Env, mint: &mut Mint, out: &mut Outcome, b: &Value, rng: &
                 case,
             );
             s = fresh(env);
+        }
+    }
+}
+
+/// The same per-variant question on a REAL executor: the subscription is consumed by a tokio task
+/// (`while let Some(m) = sub.next().await`), the harness task delivers a variant and then an intact
+/// message and yields until the runtime is idle. No timing: on the current-thread runtime `yield_now`
+/// runs every woken task; a task that is not woken stays parked for good.
+fn tokio_pass(env: &Env, mint: &mut Mint, out: &mut Outcome, cls: &str, accept: bool, rng: &mut Rng) {
+    use futures_util::StreamExt;
+    let me = SigningKey::from_bytes(&[0xC3; 32]);
+    let id = 5000;
+    let (orig, mut items) = mint.variants(env, cls, id, rng, Some(10));
+    items.truncate(12);
+    for item in items {
+        out.eval();
+        out.count("tokio-executor-variants");
+        let (porig, mut probe) = mint.variants(env, "intact", id + 1, rng, None);
+        let probe = probe.remove(0);
+        let s = env.stream(&me, 16);
+        let topic = s.topic;
+        let (mut sub, tx, _keep) = s.into_parts();
+        let got: Arc<std::sync::Mutex<Vec<EphemeralMessage<String>>>> = Arc::default();
+        let sink = got.clone();
+        env.rt.block_on(async {
+            let consumer = tokio::spawn(async move {
+                while let Some(m) = sub.next().await {
+                    sink.lock().unwrap().push(m);
+                }
+            });
+            let settle = || async {
+                for _ in 0..32 {
+                    tokio::task::yield_now().await;
+                }
+            };
+            settle().await; // the consumer parks on the empty channel
+            let _ = tx.send(item.bytes.clone());
+            settle().await;
+            let _ = tx.send(probe.bytes.clone());
+            settle().await;
+            consumer.abort();
+            let _ = consumer.await;
+        });
+        let mut ledger = Ledger::default();
+        ledger.add(id, cls, orig.clone(), &item);
+        ledger.add(id + 1, "intact", porig, &probe);
+        let got = got.lock().unwrap();
+        let case = json!({"kind": "class", "cls": cls, "accept": accept, "variant": item.variant, "executor": "tokio", "bytes": hex(&item.bytes)});
+        let mut probe_seen = false;
+        for m in got.iter() {
+            match ledger.judge(mint, topic, m) {
+                (pid, Judged::Authentic) if pid == id + 1 => probe_seen = true,
+                (_, Judged::Forged(sig, detail)) => out.violation("C16", &sig, format!("(tokio executor) {detail}"), case.clone()),
+                _ => {}
+            }
+        }
+        if !probe_seen {
+            out.violation(
+                "C17",
+                "valid-message-never-yielded",
+                format!(
+                    "(tokio executor) after an item of class {cls} (variant {}) the intact message delivered next was never received by \
+                     the consuming task although the runtime is idle",
+                    item.variant
+                ),
+                case,
+            );
         }
     }
 }
